@@ -23,6 +23,7 @@ RULE = (
     "on the leaves. non-trivial = some binary node has operands differing in name set or "
     "shape AND some polynomial leaf has >= 2 terms; distinct = hash of the case JSON."
 )
+LEVEL_TEXT += (" Operand exponents are stretched by 23/35/70 in three of eight cases, so products and powers also take the large-exponent code path.")
 ASSUMPTIONS = [
     "exact model (pbt/model.py) cross-checked against sympy by pbt.selftest",
     "dyadic float/complex coefficients: float arithmetic on them is exact, so values are compared exactly",
